@@ -535,6 +535,19 @@ def run_c07(ck, ctx):
             elif i > 0:
                 f = R.choice(['res0', 'bc', 'page', 'stop', 'orbit', 'trig', 'det', 'prio'])
                 pk[i].rdh[f] = (pk[i].rdh[f] ^ (1 << R.randrange(12))) if f != 'stop' else R.choice([0, 1, 2])
+        # a header field that a validator could be tempted to USE (header size, version, system id, priority, reserved) damaged in
+        # a packet (not the first of the input) that also carries a damaged payload word: the word's offset and quoted bytes must
+        # not depend on what the header claims
+        cand = [i for i in range(1, len(pk)) if len(pk[i].words) > 2 and pk[i].raw_payload is None]
+        if cand and si % 2 == 1:
+            i = R.choice(cand)
+            f = R.choice(['hsize', 'hsize', 'ver', 'sysid', 'prio', 'res0'])
+            pk[i].rdh[f] = pk[i].rdh[f] ^ (1 << R.randrange(8))
+            k = R.randrange(2, len(pk[i].words))
+            w = bytearray(pk[i].words[k]); w[R.randrange(9)] ^= 1 << R.randrange(8); w[9] ^= R.choice([0, 1, 0x10])
+            if k == len(pk[i].words) - 1 and w[9] == 0xFF: w[9] = 0xFE
+            pk[i].words[k] = bytes(w)
+            ck.count('header_and_word_damaged_in_one_packet')
         data = G.encode(pk)
         for m in [('all', 'its'), ('all', 'stave'), ('sanity', 'its'), ('all', None)]:
             flts = [None]
